@@ -27,6 +27,7 @@ pub mod sched;
 pub mod simnet;
 pub mod stateexp;
 pub mod strat;
+pub mod tracelog;
 pub mod vclock;
 pub mod wire;
 
